@@ -1,7 +1,7 @@
 #!/bin/sh
 # usage: tools/runall.sh [tier] [cid...]  — runs the checks one after another, prints one line per check
 cd "$(dirname "$0")/.."
-tier=${1:-quick}; shift 2>/dev/null
+mkdir -p build; tier=${1:-quick}; shift 2>/dev/null
 ids=${@:-$(ls checks | grep -v zbench)}
 for c in $ids; do
   [ -f checks/$c/check.json ] || continue
